@@ -12,7 +12,8 @@ ID = 'C19'
 RULE = ('text: lines "id SEP name [SEP anything]" joined by \\n or \\r\\n, with/without a final newline; id = up to 32 bits, '
         'with/without 0x/0X, either case, leading zeros; SEP = runs of spaces/tabs; names without whitespace characters '
         '(ASCII and unicode); duplicate ids (last wins) and duplicate names; trailing comments of printable text. Oracle: '
-        'from_trace_codes_text / from_trace_codes_file == dict built by a plain loop over the generated lines. '
+        'from_trace_codes_text / from_trace_codes_file == dict built by a plain loop over the generated lines, also when the same text is '
+        'parsed again after the caller edited the first mapping. '
         'table: event streams from the scenario builder, written as a v2 file and decoded through PyKdebugParser with a '
         'supplied table: (a) renumbering: the stream re-encoded under an injective renumbering sigma (new ids partly '
         'colliding with bundled ids of OTHER names, partly moved into class 7 and its subclasses 0x0700/0x0701) and decoded under sigma(T) gives the same trace texts, and the '
@@ -69,6 +70,18 @@ def prop_text(ctx, case):
     if dict(got) != expected:
         diff = {k: (got.get(k), expected.get(k)) for k in set(got) | set(expected) if got.get(k) != expected.get(k)}
         raise Violation('text-mapping', f'(got, expected) per id: {dict(list(diff.items())[:4])}; text={text!r}')
+    # the mapping handed out belongs to the caller: editing it must not change what the same text maps to next time
+    try:
+        got[0x7fff0000 + len(got)] = 'edited_by_the_caller'
+        for k in list(got)[:2]:
+            del got[k]
+    except TypeError:
+        pass        # a read-only mapping cannot be edited at all
+    again = guard(from_trace_codes_text, text)
+    if dict(again) != expected:
+        diff = {k: (again.get(k), expected.get(k)) for k in set(again) | set(expected) if again.get(k) != expected.get(k)}
+        raise Violation('text-mapping-not-repeatable', f'the same text parsed again after the first mapping was edited by its caller: (got, expected) per id '
+                                                       f'{dict(list(diff.items())[:4])}; text={text!r}')
     if ctx.evaluations % 10 == 0:
         d = tempfile.mkdtemp(prefix='c19-', dir=os.environ.get('TMPDIR', '/tmp'))
         try:
